@@ -58,6 +58,11 @@ Section Snap.
     end.
 End Snap.
 
+(** the snapshot codec carries [sn]: decoding its encoding returns it and its length, whatever
+    follows (the premise of the C07 theorems; Wal/Codec.v satisfies it on well-formed snapshots) *)
+Definition snap_carried (enc_snap : snapshot -> bytes) (dec_snap : bytes -> option (snapshot * nat)) (sn : snapshot) : Prop :=
+  forall rest, dec_snap (enc_snap sn ++ rest) = Some (sn, length (enc_snap sn)).
+
 Section Save.
   Variable crc : bytes -> Z.
   Variable enc : record -> bytes.
@@ -82,3 +87,11 @@ Definition epoch_clean (s : store) : bool :=
   (s_epoch s <=? latest)
   && forallb (fun '(_, n) => epoch_ok (s_epoch s) (n_created n) (n_deleted n)) (s_nodes s)
   && forallb (fun '(_, x) => epoch_ok (s_epoch s) (e_created x) (e_deleted x)) (s_edges s).
+
+(** distinct keys everywhere: ids in the node and edge maps, labels of a node, property keys of
+    an entity (every store built through the API is so: Wal/ProofsReach.v) *)
+Definition props_ok (ps : props) : Prop := NoDup (map fst ps).
+Definition store_wf (s : store) : Prop :=
+  NoDup (map fst (s_nodes s)) /\ NoDup (map fst (s_edges s))
+  /\ (forall kv, In kv (s_nodes s) -> NoDup (n_labels (snd kv)))
+  /\ (forall id, props_ok (props_of id (s_nprops s))) /\ (forall id, props_ok (props_of id (s_eprops s))).
